@@ -147,7 +147,11 @@ def install(H):
         key = (q, loop_ordinal(fr.closure.node, node))
         lc = ctx.loop_contracts.get(key)
         if lc is None or not lc.applies(it):
-            return None
+            # contracts registered by WHAT the loop iterates over (the parsed input, the list an earlier loop built ...) follow the loop
+            # when a refactoring moves it into a helper function
+            lc = next((c for c in getattr(ctx, "loop_contracts_any", ()) if c.applies(it)), None)
+            if lc is None:
+                return None
 
         def run():
             phase = ctx.case(f"loop[{q}#{key[1]}]", ("init", "step", "exit"))
